@@ -43,6 +43,36 @@ func genC10(t *rapid.T) C10Case {
 		}
 		tree = m.If(m.Op("eq", good, bad), tree, tree.Clone())
 	}
+	// now and then a constant call over LARGE list literals (the built-in list operators switch to
+	// another algorithm at a hundred elements): folded with a nil context like any other constant call
+	if rapid.IntRange(0, 7).Draw(t, "biglists") == 0 {
+		na, nb := rapid.SampledFrom([]int{3, 40, 60, 99, 100, 120}).Draw(t, "big_na"), rapid.SampledFrom([]int{1, 50, 60, 100, 130}).Draw(t, "big_nb")
+		mk := func(n, mul, off int) []int64 {
+			l := make([]int64, n)
+			for i := range l {
+				l[i] = int64((i*mul + off) % 1013)
+			}
+			return l
+		}
+		a, b := mk(na, 7, 3), mk(nb, 11, rapid.IntRange(0, 5).Draw(t, "big_off"))
+		var call *m.Node
+		switch rapid.IntRange(0, 2).Draw(t, "big_call") {
+		case 0:
+			call = m.Op("overlap", m.Const(a), m.Const(b))
+		case 1:
+			call = m.Op("in", m.Const(b[len(b)-1]), m.Const(a))
+		default:
+			sa, sb := make([]string, len(a)), make([]string, len(b))
+			for i, x := range a {
+				sa[i] = elemStr(x)
+			}
+			for i, x := range b {
+				sb[i] = elemStr(x)
+			}
+			call = m.Op("overlap", m.Const(sb), m.Const(sa))
+		}
+		tree = m.If(call, tree, tree.Clone())
+	}
 	u := UniverseFor(t, tree, false)
 	u.Stateless = drawStateless(t)
 	operatorLikeNames(t, tree, u)
